@@ -9,7 +9,7 @@ EXPLANATION = (
     "matches an offending id and no worker observes any cancellation."
 )
 ASSUMPTIONS = ["bounds: <= 5 ids, tuples <= 3"]
-BUDGET = {"quick": 150, "thorough": 2400}
+BUDGET = {"quick": 150, "thorough": 900}
 MON = ["C06"]
 
 
